@@ -475,7 +475,9 @@ class IntegratorScipylsoda(IntegratorScipyDop853):
             self._ode_solver.integrate(t)
         else:
             self.set_state(*self._back)
-            self._ode_solver.integrate(t)
+            if t != self._ode_solver.t:
+                # lsoda, just reset, must not be called with its own time.
+                self._ode_solver.integrate(t)
 
     def _check_failed_integration(self):
         if self._ode_solver.successful():
